@@ -10,7 +10,7 @@
    below 256 (the harness alphabet).  What the model does not cover evaluates to [RUnmod]:
    IDNA processing of non-ASCII / xn-- labels, $INCLUDE of an absolute path, and the record
    types whose RDATA parser is not modelled.
-   The model says what the code DOES (the 4096-iteration assert is [RPanic]).
+   The model says what the code DOES ([lex_cap]: the former 4096-iteration assert was [RPanic]).
    No proofs in this file. *)
 From Coq Require Import String Ascii.
 From HV Require Import Lib.Base.
@@ -256,11 +256,23 @@ Fixpoint lex_loop (fuel : nat) (txt : str) (st : lst) (cd : option str) (cdv : o
 
 (* iterations i = 0 .. 4094 run; the iteration with i = 4095 fails the assert *)
 Definition cap : nat := N.to_nat 4095.
-Definition next_token (txt : str) (st : lst) : lres := lex_loop cap txt st None None.
+Definition next_token_cap (c : nat) (txt : str) (st : lst) : lres := lex_loop c txt st None None.
 
-(* the same loop without the cap (fuel linear in the text): used to state termination *)
+(* the same loop without the cap (fuel linear in the text: never exhausted, C20_lexer_terminates) *)
 Definition next_token_nocap (txt : str) (st : lst) : lres :=
   lex_loop (4 * length txt + 4) txt st None None.
+
+(* THE ONE LINE that says which lexer the code has: [Some cap] = the loop with
+   `assert!(i < 4095)` (the code before /repo commit 06f967f, finding C20-F2-lexer-cap-panic);
+   [None] = the unbounded `loop` of the repaired lexer (the code now).  Every proof below and
+   Props.v check under both settings. *)
+Definition lex_cap : option nat := None.
+
+Definition next_token (txt : str) (st : lst) : lres :=
+  match lex_cap with
+  | Some c => next_token_cap c txt st
+  | None => next_token_nocap txt st
+  end.
 
 (* ------------------------------------------------------------------ *)
 (* Results                                                             *)
@@ -745,8 +757,10 @@ Definition parse_with (lex : str -> lst -> lres) (origin : option name) (txt : s
 
 (* Parser::new(text, None, origin).parse() *)
 Definition parse (origin : option name) (txt : str) : R (list rr) := parse_with next_token origin txt.
-(* the same parser over the uncapped lexer *)
+(* the same parser over the uncapped lexer, and over the lexer with a cap of [c] iterations *)
 Definition parse_nocap (origin : option name) (txt : str) : R (list rr) := parse_with next_token_nocap origin txt.
+Definition parse_capped (c : nat) (origin : option name) (txt : str) : R (list rr) :=
+  parse_with (next_token_cap c) origin txt.
 
 (* ------------------------------------------------------------------ *)
 (* Canonical dump of a record (same layout as the harness)             *)
